@@ -1,3 +1,3 @@
-(* _client.py :: async_ncrypt_protect_secret :: ('callarg', '_async_get_key', 0, 3) :  l0 *)
+(* _client.py :: async_ncrypt_protect_secret :: shape kernel :  _async_get_key(... 3: l0  [= -1] ...) *)
 Definition k_onl_aprot_arg3  : Z :=
-  (- 1).
+  (-1).
